@@ -65,6 +65,7 @@ class Case(T.NamedTuple):
     before: T.Optional[T.Dict[str, T.Any]]   # None: directory did not exist
     target: T.Dict[str, T.Any]
     followup: T.List[str]
+    listing: str = 'natural'        # order in which os.listdir/os.scandir return entries to the command: natural | sorted | reversed
 
 
 def _vals(**kw: T.Any) -> T.Dict[str, T.Any]:
@@ -90,8 +91,11 @@ def cases(tier: str) -> T.List[Case]:
     setup_nf = ['setup', '@B', '@S', '--native-file', '@S/nf.ini', '-Dn=5']
     vnf = _vals(x='nfx', n=5, warning_level='3')
     if tier == 'quick':
-        # the machine-file variant subsumes the plain one (it also records -Dn=5)
-        cs[-1] = Case('wipe-nativefile', 'wipe', [setup_nf], ['setup', '--wipe', '@B', '@S'], vnf, vnf, ['setup', '--reconfigure', '@B', '@S'])
+        # the machine-file variant subsumes the plain one (it also records -Dn=5); the directory has been reconfigured once
+        # (coredata.dat.prev exists) and the deletion loop sees the entries in sorted order (coredata.dat before coredata.dat.prev:
+        # directory order is unspecified, each order is a different sequence of intermediate states)
+        cs[-1] = Case('wipe-nativefile', 'wipe', [setup_nf[:-1] + ['-Dn=4'], ['configure', '@B', '-Dn=5']], ['setup', '--wipe', '@B', '@S'], vnf, vnf,
+                      ['setup', '--reconfigure', '@B', '@S'], 'sorted')
     if tier == 'thorough':
         cs.append(Case('wipe-after-configure', 'wipe', [setup1, ['configure', '@B', '-Dx=v3', '-Dn=9']],
                        ['setup', '--wipe', '@B', '@S'],
@@ -118,7 +122,51 @@ def cases(tier: str) -> T.List[Case]:
                  _vals(x='v1', n=9, sub__s='s1', buildtype='release'), _vals(x='v1', n=10, sub__s='s1', buildtype='debug'),
                  ['setup', '--reconfigure', '@B', '@S']),
         ]
+        # every --wipe history again under the two extreme directory-listing orders, on a directory that has a coredata.dat.prev
+        for c in [c for c in cs if c.kind == 'wipe']:
+            for order in ('sorted', 'reversed'):
+                # coredata.dat.prev must hold OTHER values than coredata.dat, or falling back to it could not be told apart
+                n = c.before['n']
+                hist = [c.history[0] + [f'-Dn={n + 30}']] + c.history[1:] + [['configure', '@B', f'-Dn={n}']]
+                cs.append(c._replace(name=f'{c.name}-ls-{order}', history=hist, listing=order))
     return cs
+
+
+def listing_monitor(order: str) -> T.Callable:
+    """os.listdir / os.scandir hand their entries to the command in the given order (an order a file system may return)."""
+    def monitor(rec: T.Callable[[dict], None]) -> None:
+        if order == 'natural':
+            return
+        rev = order == 'reversed'
+        real_listdir, real_scandir = os.listdir, os.scandir
+
+        def listdir(path: T.Any = '.') -> T.List[T.Any]:
+            return sorted(real_listdir(path), reverse=rev)
+
+        class Scan:
+            def __init__(self, path: T.Any) -> None:
+                with real_scandir(path) as it:
+                    self._items = sorted(it, key=lambda e: e.name, reverse=rev)
+                self._iter = iter(self._items)
+
+            def __iter__(self) -> 'Scan':
+                return self
+
+            def __next__(self) -> T.Any:
+                return next(self._iter)
+
+            def __enter__(self) -> 'Scan':
+                return self
+
+            def __exit__(self, *a: T.Any) -> bool:
+                return False
+
+            def close(self) -> None:
+                pass
+
+        os.listdir = listdir  # type: ignore
+        os.scandir = lambda path='.': Scan(path)  # type: ignore
+    return monitor
 
 
 def subst(argv: T.Sequence[str], b: str, s: str) -> T.List[str]:
@@ -153,7 +201,7 @@ class Arena:
 
     def run_cmd(self, kill_at: int, torn: bool) -> runner.Result:
         return runner.meson(subst(self.case.command, self.b, self.src), cwd=self.src,
-                            monitors=[crash.make_injector(self.b, kill_at, torn)])
+                            monitors=[listing_monitor(self.case.listing), crash.make_injector(self.b, kill_at, torn)])
 
 
 _MSG = re.compile(r'^Message: OPT ([\w:]+)=(.*)$', re.M)
@@ -340,8 +388,10 @@ def select_points(ops: T.List[dict], tier: str) -> T.List[T.Tuple[int, bool]]:
             keep.update(o['n'] for o in g[:3] + g[-3:] + g[::8])
     if tier == 'quick':
         # the --wipe deletion window is one equivalence class per deleted entry: sample it
+        # (not the state files directly inside meson-private: which of them still exist decides what the follow-up loads)
         win = [o['n'] for o in ops if o.get('phase') == 'wipe-delete-window' and o['n'] in keep]
         sampled = set(win[:3] + win[-3:] + win[::5])
+        sampled |= {o['n'] for o in ops if o.get('phase') == 'wipe-delete-window' and os.path.dirname(o['path']) == 'meson-private'}
         keep -= set(win) - sampled
     pts: T.List[T.Tuple[int, bool]] = []
     for o in ops:
